@@ -13,14 +13,21 @@ SLIBS = ["reim/reim_fft_ref.c", "reim/reim_ifft_ref.c", "reim/reim_fft_ifft.c", 
 FUNN = {0: "reim_fftvec_mul_simple", 1: "reim_fftvec_addmul_simple", 2: "reim4_fftvec_mul_simple", 3: "reim4_fftvec_addmul_simple", 4: "reim4_from_cplx_simple",
         5: "reim4_to_cplx_simple", 6: "reim_from_znx64_simple", 7: "reim_to_znx64_simple", 8: "cplx_from_znx32_simple", 9: "cplx_from_tnx32_simple",
         10: "cplx_to_tnx32_simple", 11: "cplx_fftvec_mul_simple", 12: "cplx_fftvec_addmul_simple"}
+FUNN.update({13: "reim_fft_simple", 14: "reim_ifft_simple", 15: "cplx_fft_simple", 16: "cplx_ifft_simple"})
+XLIBS = ["cplx/cplx_fft_ref.c", "cplx/cplx_ifft_ref.c", "cplx/cplx_fft_avx2_fma.c", "cplx/cplx_ifft_avx2_fma.c", "cplx/cplx_fft16_avx_fma.s", "cplx/cplx_ifft16_avx_fma.s",
+         "cplx/cplx_fft_asserts.c"]
 HAS_PARAMS = (7, 10)  # functions whose cache must also be keyed by divisor / bound
 
 
 def history_obs(ctx):
     obs = []
     for fun in sorted(FUNN):
+        if fun >= 13:
+            continue  # (i)fft *_simple through the real table builders with cos/sin uninterpreted: tried, every instance runs past 15 minutes - not claimed
         minm = 4 if fun in (2, 3, 4, 5) else (8 if fun in (8, 9, 10) else 1)
         dims = [(minm, 2 * minm), (2 * minm, minm)] + ([(8, 16)] if minm < 8 else [])
+        if fun >= 13:
+            dims = [(4, 8), (8, 4), (2, 16)]  # the table builders run under cbmc (cos/sin uninterpreted); m <= 16: the drivers' own log2() is not reached
         for (m1, m2) in dims:
             for avx in (0, 1):
                 variants = [({"D1": 0, "D2": 3, "B1": 50 if fun == 7 else 18, "B2": 63 if fun == 7 else 18}, "")]
@@ -38,7 +45,7 @@ def history_obs(ctx):
                         prm["more_pairs"] = [["VF_OUT3", "VF_OUT4"]]  # the same-dimension / other-parameters call against a fresh table for ITS parameters
                     obs.append(AlgOb("history/%s/m1=%d/m2=%d/avx=%d%s" % (FUNN[fun], m1, m2, avx, tag), "simple.c", "h_simple", "vf.alg.uf:check_equal",
                                      params=prm,
-                                     defs=d, libs=SLIBS, unwind=200, family=FUNN[fun], timeout=600,
+                                     defs=d, libs=SLIBS + (XLIBS if fun >= 15 else []), unwind=200, family=FUNN[fun], timeout=900,
                                      desc="f(M1,P1); f(M2,P2); [f(M1,P2);] f(M1,P1) through the caching entry point vs the same operation on a freshly "
                                           "initialised table: every output of the last call is the same uninterpreted term (hence the same bits)"))
     return obs
